@@ -9,6 +9,8 @@
   Overlap removal on the resulting candidates is `DV.Overlap.loop`, whose theorems are C10's.
 -/
 import DropletsVerif.Lemmas.MergeInv
+import DropletsVerif.Lemmas.LabelInv
+import DropletsVerif.Lemmas.GridGeom
 import DropletsVerif.Props.C10
 
 namespace DV.C02
@@ -141,5 +143,197 @@ example : ConsistentLift (fun c => if c = 0 then 1 else if c = 3 then 2 else 0) 
     simp only [List.mem_singleton] at he
     subst he
     by_cases ha : a = 0 <;> simp [delta, ha]
+
+end DV.C02
+
+/-! ### from the MASK: the executable labeller and the whole pipeline
+
+`DV.Label.labelExec` (Model/Label.lean) is an executable model of the contract of
+`scipy.ndimage.label` that the code relies on.  With it the statement no longer depends on a given
+labelling: the clusters returned for a binary image are exactly the classes of the grid's adjacency
+(in-box face pairs together with the face pairs across the periodic boundaries) restricted to the mask.
+The correspondence check compares `labelExec` with scipy's labelling on every small image. -/
+
+namespace DV.C02
+open DV.Merge DV.MergeInv DV.Label DV.LabelInv Relation
+
+/-- **The labeller satisfies the labelling contract**: background ↔ 0; two mask cells get the same
+name iff they are connected through in-box face pairs inside the mask; names are ordered like the
+first (raster-order) cells of the clusters and are gap-free (1, 2, …, K). -/
+theorem labelExec_isLabelling (shape : List Nat) (mask : Nat → Bool)
+    (hmask : ∀ c, mask c = true → c < numCells shape) :
+    let L := labelFn shape mask
+    (∀ c, 0 < L c ↔ mask c = true) ∧
+    (∀ c1 c2, mask c1 = true → mask c2 = true →
+      (L c1 = L c2 ↔ MaskConn mask (inboxEdges shape) c1 c2)) ∧
+    (∀ c1 c2, mask c1 = true → mask c2 = true →
+      (L c1 < L c2 ↔ ∃ a, L a = L c1 ∧ ∀ b, L b = L c2 → a < b)) ∧
+    (∀ c, mask c = true → ∀ k, 1 ≤ k → k ≤ L c → ∃ c', L c' = k) := by
+  intro L
+  set n := numCells shape with hn
+  set raw := rawLabel shape mask with hraw
+  have hL : ∀ c, c < n → L c = rank n raw c := fun c hc => labelFn_eq shape mask hc
+  have hLout : ∀ c, n ≤ c → L c = 0 := fun c hc => labelFn_out shape mask hc
+  have hrawpos : ∀ c, 0 < raw c ↔ mask c = true := rawLabel_pos_iff shape mask
+  have hpos : ∀ c, 0 < L c ↔ mask c = true := by
+    intro c
+    by_cases hc : c < n
+    · rw [hL c hc, ← hrawpos c]
+      have := rank_zero_iff n raw c hc
+      omega
+    · have h0 := hLout c (by omega)
+      constructor
+      · intro h; omega
+      · intro h; exact absurd (hmask c h) hc
+  have heq : ∀ c1 c2, mask c1 = true → mask c2 = true → (L c1 = L c2 ↔ raw c1 = raw c2) := by
+    intro c1 c2 m1 m2
+    rw [hL c1 (hmask c1 m1), hL c2 (hmask c2 m2)]
+    exact rank_eq_iff n raw (hmask c1 m1) (hmask c2 m2) ((hrawpos c1).mpr m1) ((hrawpos c2).mpr m2)
+  refine ⟨hpos, ?_, ?_, ?_⟩
+  · intro c1 c2 m1 m2
+    rw [heq c1 c2 m1 m2]
+    exact rawLabel_eq_iff shape mask m1 m2
+  · intro c1 c2 m1 m2
+    have b1 := hmask c1 m1
+    have b2 := hmask c2 m2
+    have p1 := (hrawpos c1).mpr m1
+    have p2 := (hrawpos c2).mpr m2
+    rw [hL c1 b1, hL c2 b2, rank_lt_iff n raw b1 b2 p1 p2]
+    obtain ⟨f1, f2, f3, f4⟩ := firstOf_spec n raw b1
+    obtain ⟨g1, g2, g3, g4⟩ := firstOf_spec n raw b2
+    have mf1 : mask (firstOf n raw c1) = true := (hrawpos _).mp (by rw [f3]; exact p1)
+    constructor
+    · intro hlt
+      refine ⟨firstOf n raw c1, ?_, ?_⟩
+      · rw [← hL c1 b1]; exact (heq _ _ mf1 m1).mpr f3
+      · intro b hb
+        have mb : mask b = true := (hpos b).mp (by rw [hb, ← hL c2 b2]; exact (hpos c2).mpr m2)
+        have hrb : raw b = raw c2 := (heq b c2 mb m2).mp (by rw [hb, hL c2 b2])
+        by_contra hge
+        exact g4 b (by omega) hrb
+    · rintro ⟨a, ha, hall⟩
+      have ma : mask a = true := (hpos a).mp (by rw [ha, ← hL c1 b1]; exact (hpos c1).mpr m1)
+      have hra : raw a = raw c1 := (heq a c1 ma m1).mp (by rw [ha, hL c1 b1])
+      have mg : mask (firstOf n raw c2) = true := (hrawpos _).mp (by rw [g3]; exact p2)
+      have hlt := hall (firstOf n raw c2) (by rw [← hL c2 b2]; exact (heq _ _ mg m2).mpr g3)
+      by_contra hge
+      exact f4 a (by omega) hra
+  · intro c m k hk hle
+    rw [hL c (hmask c m)] at hle
+    obtain ⟨c', h1, _, _, h4⟩ := rank_gapfree n raw (hmask c m) ((hrawpos c).mpr m) k hk hle
+    exact ⟨c', by rw [hL c' h1, h4]⟩
+
+/-- **Partition, from the mask.**  Running the labeller and then the periodic merge loop (this is
+`locateMask`), two mask cells end in the same cluster exactly when they are connected inside the mask
+through in-box face pairs and periodic face pairs — for every shape, periodicity mask and image. -/
+theorem locateMask_partition (shape : List Nat) (periodic : List Bool) (mask : Nat → Bool)
+    (hmask : ∀ c, mask c = true → c < numCells shape) (coord : Nat → Nat → Nat) (cells : List Nat)
+    (shp : Nat → Nat) :
+    let L := labelFn shape mask
+    let st := mergeLoop shp L (initSt coord L cells) (edgesOf shape periodic)
+    (∀ c, 0 < st.lab c ↔ mask c = true) ∧
+    ∀ c1 c2, mask c1 = true → mask c2 = true →
+      (st.lab c1 = st.lab c2 ↔ MaskConn mask (inboxEdges shape ++ edgesOf shape periodic) c1 c2) := by
+  intro L st
+  obtain ⟨hpos, heq, _, _⟩ := labelExec_isLabelling shape mask hmask
+  have inv : LabInv L st (edgesOf shape periodic) := labInv_final shp L coord cells _
+  refine ⟨fun c => (inv.pos_iff c).trans (hpos c), ?_⟩
+  intro c1 c2 m1 m2
+  have p1 := (hpos c1).mpr m1
+  have p2 := (hpos c2).mpr m2
+  constructor
+  · intro h
+    have hc := inv.conn_of_eq c1 c2 p1 p2 h
+    clear h p1 p2 m1 m2
+    induction hc with
+    | rel a b hl =>
+      obtain ⟨ha, hb, hor⟩ := hl
+      have ma := (hpos a).mp ha
+      have mb := (hpos b).mp hb
+      rcases hor with hsame | ⟨e, he, h1, h2⟩
+      · exact MaskConn.mono (fun e he => List.mem_append_left _ he) ((heq a b ma mb).mp hsame)
+      · exact EqvGen.rel _ _ ⟨ma, mb, Or.inr ⟨e, List.mem_append_right _ he, h1, h2⟩⟩
+    | refl a => exact EqvGen.refl _
+    | symm a b _ ih => exact EqvGen.symm _ _ ih
+    | trans a b c _ _ ih1 ih2 => exact EqvGen.trans _ _ _ ih1 ih2
+  · intro h
+    apply inv.eq_of_conn L
+    clear p1 p2 m1 m2
+    induction h with
+    | rel a b hl =>
+      obtain ⟨ma, mb, hor⟩ := hl
+      have pa := (hpos a).mpr ma
+      have pb := (hpos b).mpr mb
+      rcases hor with hab | ⟨e, he, h1, h2⟩
+      · subst hab; exact EqvGen.refl _
+      · rcases List.mem_append.mp he with hin | hper
+        · have : L a = L b := (heq a b ma mb).mpr (EqvGen.rel _ _ ⟨ma, mb, Or.inr ⟨e, hin, h1, h2⟩⟩)
+          exact EqvGen.rel _ _ ⟨pa, pb, Or.inl this⟩
+        · exact EqvGen.rel _ _ ⟨pa, pb, Or.inr ⟨e, hper, h1, h2⟩⟩
+    | refl a => exact EqvGen.refl _
+    | symm a b _ ih => exact EqvGen.symm _ _ ih
+    | trans a b c _ _ ih1 ih2 => exact EqvGen.trans _ _ _ ih1 ih2
+
+/-- the labeller on the image of finding D1 reproduces scipy's labelling (1,2,2,3,2) -/
+example :
+    labelExec [5, 8] (fun c => ([0,0,0,0,0,0,0,0, 1,0,0,0,0,0,0,1, 0,0,0,0,0,0,0,1, 1,0,0,0,0,0,0,1,
+      0,0,0,0,0,0,0,0] : List Nat).getD c 0 != 0)
+      = [0,0,0,0,0,0,0,0, 1,0,0,0,0,0,0,2, 0,0,0,0,0,0,0,2, 3,0,0,0,0,0,0,2, 0,0,0,0,0,0,0,0] := by
+  decide +kernel
+
+end DV.C02
+
+/-! ### the same, in terms of the grid's topology (coordinates) -/
+
+namespace DV.C02
+open DV.Merge DV.MergeInv DV.Label DV.LabelInv DV.GridGeom Relation
+
+/-- `c'` is a face neighbour of `c` under the grid's topology: one step up along an axis inside the
+box, or — on a periodic axis — from the lower face to the opposite cell of the upper face -/
+def FaceAdj (shape : List Nat) (periodic : List Bool) (c c' : Nat) : Prop :=
+  ∃ ax, StepUp shape ax c c' ∨ Across shape periodic ax c c'
+
+/-- connectivity inside the mask under the grid's topology -/
+def GridConn (shape : List Nat) (periodic : List Bool) (mask : Nat → Bool) : Nat → Nat → Prop :=
+  EqvGen fun a b => mask a = true ∧ mask b = true ∧ (a = b ∨ FaceAdj shape periodic a b)
+
+theorem faceAdj_iff_edge (shape : List Nat) (periodic : List Bool) (hpos : ∀ n ∈ shape, 0 < n) (a b : Nat) :
+    FaceAdj shape periodic a b ↔ ∃ e ∈ inboxEdges shape ++ edgesOf shape periodic, e.l = a ∧ e.h = b := by
+  constructor
+  · rintro ⟨ax, h | h⟩
+    · exact ⟨⟨ax, a, b⟩, List.mem_append_left _ ((inboxEdges_iff shape hpos ax a b).mpr h), rfl, rfl⟩
+    · exact ⟨⟨ax, a, b⟩, List.mem_append_right _ ((edgesOf_iff shape periodic hpos ax a b).mpr h), rfl, rfl⟩
+  · rintro ⟨⟨ax, l, h⟩, he, rfl, rfl⟩
+    rcases List.mem_append.mp he with h1 | h1
+    · exact ⟨ax, Or.inl ((inboxEdges_iff shape hpos ax _ _).mp h1)⟩
+    · exact ⟨ax, Or.inr ((edgesOf_iff shape periodic hpos ax _ _).mp h1)⟩
+
+/-- **C02, from the image and the grid alone.**  For every shape (any dimension, all extents
+positive), every periodicity mask and every binary image: after labelling and periodic merging two
+cells of the image belong to the same cluster exactly when they are connected inside the image by
+face steps of the grid's topology (in-box steps and steps across periodic boundaries). -/
+theorem locateMask_topology (shape : List Nat) (periodic : List Bool) (mask : Nat → Bool)
+    (hpos : ∀ n ∈ shape, 0 < n) (hmask : ∀ c, mask c = true → c < numCells shape)
+    (coord : Nat → Nat → Nat) (cells : List Nat) (shp : Nat → Nat) :
+    let L := labelFn shape mask
+    let st := mergeLoop shp L (initSt coord L cells) (edgesOf shape periodic)
+    ∀ c1 c2, mask c1 = true → mask c2 = true →
+      (st.lab c1 = st.lab c2 ↔ GridConn shape periodic mask c1 c2) := by
+  intro L st c1 c2 m1 m2
+  have h := (locateMask_partition shape periodic mask hmask coord cells shp).2 c1 c2 m1 m2
+  have hrel : MaskLink mask (inboxEdges shape ++ edgesOf shape periodic) =
+      fun a b => mask a = true ∧ mask b = true ∧ (a = b ∨ FaceAdj shape periodic a b) := by
+    funext a b
+    unfold MaskLink
+    rw [faceAdj_iff_edge shape periodic hpos]
+  unfold GridConn
+  rw [← hrel]
+  exact h
+
+/-- non-vacuity: on the 5×8 grid of finding D1 (periodic along axis 1) the cell (1,0) [flat 8] and the
+cell (1,7) [flat 15] are face neighbours across the periodic boundary, (1,7) and (2,7) [flat 23] in the box -/
+example : Across [5, 8] [false, true] 1 8 15 ∧ StepUp [5, 8] 0 15 23 := by
+  refine ⟨⟨by decide, by decide, by decide, by decide, by decide, by decide⟩,
+    ⟨by decide, by decide, by decide, by decide, by decide⟩⟩
 
 end DV.C02
